@@ -16,8 +16,8 @@ CHECK = dict(
               plain("strings", "TestVerifStrings"),
               rapid("prop", "TestVerifProp", 600_000, 12_000_000, sq=4, st=16),
               rapid("e2e", "TestVerifE2E", 3_000, 60_000, sq=2, st=8)],
-        technique="exhaustive enumeration of a finite platform universe (every request x every list of <=2 entries in quick; <=3 / <=4 over "
-                  "reduced universes in thorough; all permutations) plus property-based testing (rapid) of lists of up to 4 entries, "
+        technique="exhaustive enumeration of a finite platform universe (every request x every list of <=2 entries over the full universe plus lists of 3 over a "
+                  "55-entry universe in quick; lists of 3 over 269 entries and of 4 over 55 entries in thorough; all permutations) plus property-based testing (rapid) of lists of up to 4 entries, "
                   "against an independent reference model of compatibility / exactness / preference; algebraic laws of the pairwise "
                   "ordering over all triples; exhaustive parse/print normal-form check of platform strings",
         level_text="Every outcome of descriptor.DescriptorListSearch (and of manifest.GetPlatformDesc on an OCI index and a Docker manifest "
@@ -29,6 +29,8 @@ CHECK = dict(
         level_note="Trusted: the reference model harness/c16/model.go. Where the documentation is silent the model answers 'unspecified' "
                    "and accepts either behaviour: a Windows entry without os.version for a request that has one, differing OS versions on "
                    "non-Windows systems, and the relative priority of the preference criteria (native OS vs CPU level vs OS version). "
+                   "Variants are combined only with the architectures they apply to (amd64: v1-v3, arm: v5-v8/7/8, arm64: v8/8); "
+                   "for nonsense spellings such as amd64/7 vs amd64/v7 the code's ordering has ties, which is not claimed to be a defect. "
                    "Not covered: OSFeatures/Features, mixed-length OS versions, requests without an architecture, short platform strings "
                    "whose expansion depends on the local machine (only architecture-only strings, weakly).",
         assumptions=["OS versions have equal component counts (4-part Windows builds) or are absent",
